@@ -1,8 +1,10 @@
 package main
 
 import (
+	"fmt"
 	"go/token"
 	"go/types"
+	"sort"
 
 	"golang.org/x/tools/go/ssa"
 )
@@ -515,6 +517,10 @@ func (e *ptsEngine) storedThrough(v ssa.Value, field int, ctx *ptsCtx) map[memOb
 
 // content: what was stored into object o (by the function that created it).
 func (e *ptsEngine) content(o memObj, field int) map[memObj]bool {
+	if o.mark {
+		// what is reachable from marked memory stays marked
+		return map[memObj]bool{o: true}
+	}
 	k := contentKey{o, field}
 	if r, ok := e.cmemo[k]; ok {
 		return r
@@ -647,4 +653,108 @@ func (e *ptsEngine) fieldOfStruct(sv ssa.Value, f int, ctx *ptsCtx, depth int) m
 		}
 	}
 	return e.pts(sv, ctx)
+}
+
+// refSite: a place where the memory behind `ref` is written (or otherwise must not be a marked object).
+type refSite struct {
+	fn   *ssa.Function
+	in   ssa.Instruction
+	ref  ssa.Value
+	what string
+}
+
+// judgeRefSites evaluates every site with the engine: a site whose reference can reach a marked value
+// is reported; a site that reaches a parameter of its own function turns into an obligation on every
+// call site of that function inside `reach` (to a fixed point).
+func judgeRefSites(m *Module, eng *ptsEngine, reach map[*ssa.Function]reachInfo, sites []refSite, markName func(ssa.Value) string, verb string) (reports []string, nArgs int) {
+	type judged struct {
+		held   []string
+		params []*ssa.Parameter
+	}
+	judge := func(ref ssa.Value) judged {
+		var j judged
+		seenH := map[string]bool{}
+		for o := range eng.pts(ref, nil) {
+			if o.mark {
+				if w := markName(o.v); w != "" && !seenH[w] {
+					seenH[w] = true
+					j.held = append(j.held, w)
+				}
+				continue
+			}
+			if p, ok := o.v.(*ssa.Parameter); ok && o.ctx == nil {
+				j.params = append(j.params, p)
+			}
+		}
+		sort.Strings(j.held)
+		return j
+	}
+	paramHit := map[*ssa.Function]map[int]string{}
+	markParam := func(p *ssa.Parameter, what string) bool {
+		f := p.Parent()
+		for i, q := range f.Params {
+			if q == p {
+				if paramHit[f] == nil {
+					paramHit[f] = map[int]string{}
+				}
+				if _, ok := paramHit[f][i]; !ok {
+					paramHit[f][i] = what
+					return true
+				}
+			}
+		}
+		return false
+	}
+	for _, w := range sites {
+		j := judge(w.ref)
+		for _, h := range j.held {
+			reports = append(reports, fmt.Sprintf("%s: %s in %s %s %s", m.Pos(w.in.Pos()), w.what, w.fn.Name(), verb, h))
+		}
+		for _, p := range j.params {
+			markParam(p, w.what)
+		}
+	}
+	reported := map[string]bool{}
+	for changed := true; changed; {
+		changed = false
+		for f := range reach {
+			for _, call := range callsIn(f) {
+				cc := call.Common()
+				var targets []*ssa.Function
+				if cc.IsInvoke() {
+					targets = implementers(m, cc.Value.Type(), cc.Method)
+				} else if g, _ := calleeOf(cc); g != nil {
+					targets = []*ssa.Function{g}
+				}
+				args := cc.Args
+				if cc.IsInvoke() {
+					args = append([]ssa.Value{cc.Value}, args...)
+				}
+				for _, g := range targets {
+					for ai, a := range args {
+						what, ok := paramHit[g][ai]
+						if !ok {
+							continue
+						}
+						nArgs++
+						j := judge(a)
+						for _, h := range j.held {
+							msg := fmt.Sprintf("%s: %s passes %s to %s (%s through that parameter)", m.Pos(call.Pos()), f.Name(), h, g.Name(), what)
+							if !reported[msg] {
+								reported[msg] = true
+								reports = append(reports, msg)
+							}
+						}
+						for _, p := range j.params {
+							if markParam(p, what) {
+								changed = true
+							}
+						}
+					}
+				}
+			}
+		}
+	}
+	sort.Strings(reports)
+	return reports, nArgs
 }
